@@ -3,3 +3,6 @@ import DictIO.Model.Chars
 import DictIO.Model.Dict
 import DictIO.Model.Order
 import DictIO.Model.KeyPath
+import DictIO.Lemmas.Order
+import DictIO.Lemmas.Assoc
+import DictIO.Props.C15
